@@ -28,6 +28,7 @@ import (
 	"path/filepath"
 	"runtime"
 	"strconv"
+	"strings"
 	"sync"
 	"sync/atomic"
 	"syscall"
@@ -52,8 +53,20 @@ type Session struct {
 	Root string
 	Seed uint64
 	Tier string
-	meta *os.File
-	seg  int
+	// Inject is "" in the ordinary traced run, and "fsync" / "rename" in the
+	// runs where strace makes EVERY fsync+fdatasync (EIO), respectively every
+	// rename* (EXDEV), of the process fail: the package harness then runs its
+	// injected-failure scenarios only.
+	Inject  string
+	meta    *os.File
+	wantDir string
+	seg     int
+}
+
+// InjectModes are the additional traced runs (strace -e inject=...).
+var InjectModes = []struct{ Name, Spec string }{
+	{"fsync", "inject=fsync,fdatasync:error=EIO"},
+	{"rename", "inject=rename,renameat,renameat2:error=EXDEV"},
 }
 
 // Start returns nil in the parent (after the traced child and the parser have
@@ -74,19 +87,12 @@ func Start(t *testing.T, pkg string) *Session {
 			t.Fatal(err)
 		}
 		t.Cleanup(func() { f.Close() })
-		return &Session{T: t, Root: os.Getenv("VERIF_C14_ROOT"), Seed: seed, Tier: tier, meta: f}
+		wd := os.Getenv("VERIF_C14_WANT")
+		os.MkdirAll(wd, 0o755)
+		return &Session{T: t, Root: os.Getenv("VERIF_C14_ROOT"), Seed: seed, Tier: tier, meta: f,
+			Inject: os.Getenv("VERIF_C14_INJECT"), wantDir: wd}
 	}
 
-	root, err := os.MkdirTemp("", "vfc14-"+pkg+"-")
-	if err != nil {
-		t.Fatal(err)
-	}
-	root, _ = filepath.EvalSymlinks(root)
-	defer os.RemoveAll(root)
-	trace := filepath.Join(out, "c14_"+pkg+".trace")
-	meta := filepath.Join(out, "c14_"+pkg+".meta.jsonl")
-	os.Remove(trace)
-	os.Remove(meta)
 	exe, err := os.Executable()
 	if err != nil {
 		t.Fatal(err)
@@ -100,42 +106,77 @@ func Start(t *testing.T, pkg string) *Session {
 	if v, err := strconv.Atoi(os.Getenv("VERIF_C14_LIMIT_S")); err == nil && v > 0 {
 		limit = time.Duration(v) * time.Second
 	}
-	cmd := exec.Command("strace", "-f", "-s", strconv.Itoa(SmallLimit+64), "-e", "trace="+Syscalls, "-o", trace,
-		exe, "-test.run", "^TestVerifC14$", "-test.count=1", "-test.timeout="+(limit-10*time.Second).String())
-	cmd.Env = append(os.Environ(), "VERIF_C14_CHILD=1", "VERIF_C14_ROOT="+root, "VERIF_C14_META="+meta)
-	cmd.SysProcAttr = &syscall.SysProcAttr{Setpgid: true}
-	var ob bytes.Buffer
-	cmd.Stdout, cmd.Stderr = &ob, &ob
-	cerr := cmd.Start()
-	if cerr == nil {
-		done := make(chan error, 1)
-		go func() { done <- cmd.Wait() }()
-		select {
-		case cerr = <-done:
-		case <-time.After(limit):
-			syscall.Kill(-cmd.Process.Pid, syscall.SIGKILL)
-			<-done
-			cerr = fmt.Errorf("traced run exceeded its hard limit of %s and was killed", limit)
-		}
-	}
-	tail := ob.String()
-	if len(tail) > 3000 {
-		tail = tail[len(tail)-3000:]
-	}
-	// the parser runs even when the child failed: the cases recorded so far count
 	verif := os.Getenv("VERIF_DIR")
 	if verif == "" {
 		verif = "/verif"
 	}
-	p := exec.Command("python3", filepath.Join(verif, "tools", "c14_straceparse.py"),
-		"--trace", trace, "--meta", meta, "--root", root, "--out", out, "--pkg", pkg,
-		"--seed", strconv.FormatUint(seed, 10), "--tier", tier, "--only", os.Getenv("VERIF_ONLY_ID"))
-	pout, perr := p.CombinedOutput()
-	if perr != nil {
-		t.Fatalf("strace parser failed: %v\n%s", perr, pout)
+	// one ordinary traced run, then one run per injected system-call failure
+	runs := []struct{ Name, Spec string }{{"", ""}}
+	runs = append(runs, InjectModes...)
+	var failures []string
+	for _, run := range runs {
+		tag := pkg
+		if run.Name != "" {
+			tag = pkg + "_" + run.Name
+		}
+		root, err := os.MkdirTemp("", "vfc14-"+tag+"-")
+		if err != nil {
+			t.Fatal(err)
+		}
+		root, _ = filepath.EvalSymlinks(root)
+		wantDir, err := os.MkdirTemp("", "vfc14w-"+tag+"-")
+		if err != nil {
+			t.Fatal(err)
+		}
+		trace := filepath.Join(out, "c14_"+tag+".trace")
+		meta := filepath.Join(out, "c14_"+tag+".meta.jsonl")
+		os.Remove(trace)
+		os.Remove(meta)
+		args := []string{"-f", "-s", strconv.Itoa(SmallLimit + 64), "-e", "trace=" + Syscalls}
+		if run.Spec != "" {
+			args = append(args, "-e", run.Spec)
+		}
+		args = append(args, "-o", trace, exe, "-test.run", "^TestVerifC14$", "-test.count=1",
+			"-test.timeout="+(limit-10*time.Second).String())
+		cmd := exec.Command("strace", args...)
+		cmd.Env = append(os.Environ(), "VERIF_C14_CHILD=1", "VERIF_C14_ROOT="+root, "VERIF_C14_META="+meta,
+			"VERIF_C14_WANT="+wantDir, "VERIF_C14_INJECT="+run.Name)
+		cmd.SysProcAttr = &syscall.SysProcAttr{Setpgid: true}
+		var ob bytes.Buffer
+		cmd.Stdout, cmd.Stderr = &ob, &ob
+		cerr := cmd.Start()
+		if cerr == nil {
+			done := make(chan error, 1)
+			go func() { done <- cmd.Wait() }()
+			select {
+			case cerr = <-done:
+			case <-time.After(limit):
+				syscall.Kill(-cmd.Process.Pid, syscall.SIGKILL)
+				<-done
+				cerr = fmt.Errorf("traced run exceeded its hard limit of %s and was killed", limit)
+			}
+		}
+		tail := ob.String()
+		if len(tail) > 3000 {
+			tail = tail[len(tail)-3000:]
+		}
+		// the parser runs even when the child failed: the cases recorded so far count
+		p := exec.Command("python3", filepath.Join(verif, "tools", "c14_straceparse.py"),
+			"--trace", trace, "--meta", meta, "--root", root, "--out", out, "--pkg", pkg, "--inject", run.Name,
+			"--want", wantDir,
+			"--seed", strconv.FormatUint(seed, 10), "--tier", tier, "--only", os.Getenv("VERIF_ONLY_ID"))
+		pout, perr := p.CombinedOutput()
+		os.RemoveAll(root)
+		os.RemoveAll(wantDir)
+		if perr != nil {
+			failures = append(failures, fmt.Sprintf("strace parser failed (%s): %v\n%s", tag, perr, pout))
+		}
+		if cerr != nil {
+			failures = append(failures, fmt.Sprintf("traced child failed (%s): %v\n%s", tag, cerr, tail))
+		}
 	}
-	if cerr != nil {
-		t.Fatalf("traced child failed: %v\n%s", cerr, tail)
+	if len(failures) > 0 {
+		t.Fatal(strings.Join(failures, "\n"))
 	}
 	return nil
 }
@@ -177,6 +218,16 @@ type version struct {
 	ExpectErr bool `json:"expect_err,omitempty"`
 	// Intended content of a successful save, when the harness knows it
 	// independently of the file (Want*), and whether it was given.
+	// Kind: which save program of Model/SaveLoop.v ran ("writefile": renameio.WriteFile
+	// through configuration.write / dbStore; "update": DNSFilter.update; "": not
+	// judged against the save model).  Fault: what the harness made fail
+	// ("limit" write, "nofile" creation of the temporary file, "fsync", "rename",
+	// "source" the download or the parser).
+	Kind  string `json:"kind,omitempty"`
+	Fault string `json:"fault,omitempty"`
+	// WantSha names the side file with the reference content of a version too
+	// large for Hex: the intended content when known, else what was read back.
+	WantSha string `json:"want_sha,omitempty"`
 	HasWant bool   `json:"has_want,omitempty"`
 	WantLen int    `json:"want_len,omitempty"`
 	WantHex string `json:"want_hex,omitempty"`
@@ -217,6 +268,34 @@ type Case struct {
 	contentBad string
 	wantShas   []string
 	unordered  bool // concurrent saves: the order of publication is not known to the harness
+	// Kind of the next save (see version.Kind); reset after every save.
+	Kind  string
+	saves int
+}
+
+// dump stores a reference content for the parser (outside the traced root),
+// named by its SHA-256; small contents travel as hex in the record itself.
+func (c *Case) dump(b []byte) string {
+	if len(b) <= SmallLimit {
+		return ""
+	}
+	h := sha256.Sum256(b)
+	name := hex.EncodeToString(h[:])
+	p := filepath.Join(c.s.wantDir, name+".bin")
+	if _, err := os.Stat(p); err != nil {
+		if err := os.WriteFile(p, b, 0o644); err != nil {
+			c.s.T.Fatalf("reference content: %v", err)
+		}
+	}
+	return name
+}
+
+// begin marks the start of one save in the trace and returns its kind.
+func (c *Case) begin() (kind string) {
+	c.saves++
+	c.s.mark(fmt.Sprintf("save-%d", c.saves))
+	kind, c.Kind = c.Kind, ""
+	return kind
 }
 
 // Job is one of several saves started at the same time on the same dst.
@@ -232,6 +311,7 @@ type Job struct {
 // model side compares the published versions as a set.
 func (c *Case) SaveConcurrent(label string, jobs []Job) {
 	c.unordered = true
+	c.begin()
 	errs := make([]error, len(jobs))
 	start := make(chan struct{})
 	var wg sync.WaitGroup
@@ -260,6 +340,7 @@ func (c *Case) SaveConcurrent(label string, jobs []Job) {
 			if len(j.Want) <= SmallLimit {
 				jv.WantHex = hex.EncodeToString(j.Want)
 			}
+			jv.WantSha = c.dump(j.Want)
 			if v.Exists && bytes.Equal(cur, j.Want) {
 				match = true
 			}
@@ -302,6 +383,9 @@ func (c *Case) judge(v *version, cur []byte, changedOK bool) {
 		if len(c.want) <= SmallLimit {
 			v.WantHex = hex.EncodeToString(c.want)
 		}
+		v.WantSha = c.dump(c.want)
+	} else if changedOK && v.Exists {
+		v.WantSha = c.dump(cur)
 	}
 	c.prev, c.prevExists = cur, v.Exists
 	c.want, c.hasWant = nil, false
@@ -314,9 +398,10 @@ func (s *Session) mark(what string) {
 
 // Save runs one real save and records what is at dst afterwards.
 func (c *Case) Save(label string, f func() error) error {
+	kind := c.begin()
 	err := f()
 	v, cur := snapshotB(c.Dst)
-	v.Label = label
+	v.Label, v.Kind = label, kind
 	if err != nil {
 		v.Err = err.Error()
 		if len(v.Err) > 200 {
@@ -331,9 +416,16 @@ func (c *Case) Save(label string, f func() error) error {
 // SaveB is Save for save paths that report whether they replaced the file;
 // expectErr says the harness provoked a failure on purpose.
 func (c *Case) SaveB(label string, expectErr bool, f func() (bool, error)) (replaced bool, err error) {
+	kind := c.begin()
 	replaced, err = f()
 	v, cur := snapshotB(c.Dst)
-	v.Label, v.ExpectErr = label, expectErr
+	v.Label, v.ExpectErr, v.Kind = label, expectErr, kind
+	if expectErr {
+		v.Fault = "source"
+		if c.s.Inject != "" {
+			v.Fault = c.s.Inject
+		}
+	}
 	if err != nil {
 		v.Err = err.Error()
 		if len(v.Err) > 200 {
@@ -355,6 +447,7 @@ func (c *Case) SaveB(label string, expectErr bool, f func() (bool, error)) (repl
 // first write fail.  Whatever the save path returns, dst must afterwards be
 // byte-identical to the previous version (and exist if it existed).
 func (c *Case) SaveLimited(label string, limit uint64, f func() error) (err error) {
+	kind := c.begin()
 	signal.Ignore(syscall.SIGXFSZ)
 	var old syscall.Rlimit
 	if e := syscall.Getrlimit(syscall.RLIMIT_FSIZE, &old); e != nil {
@@ -376,7 +469,7 @@ func (c *Case) SaveLimited(label string, limit uint64, f func() error) (err erro
 		err = f()
 	}()
 	v, cur := snapshotB(c.Dst)
-	v.Label, v.ExpectErr = label, true
+	v.Label, v.ExpectErr, v.Kind, v.Fault = label, true, kind, "limit"
 	if err != nil {
 		v.Err = err.Error()
 		if len(v.Err) > 200 {
@@ -390,6 +483,69 @@ func (c *Case) SaveLimited(label string, limit uint64, f func() error) (err erro
 	if err == nil {
 		c.Classes = append(c.Classes, "fail-write-limit-unreported")
 	}
+	return err
+}
+
+// SaveNoFile runs one real save while the process cannot get a new file
+// descriptor (RLIMIT_NOFILE lowered to 0 for the duration of f): creating the
+// temporary file fails with EMFILE.  The save must report an error and dst
+// must be byte-identical to the previous version.
+func (c *Case) SaveNoFile(label string, f func() error) (err error) {
+	kind := c.begin()
+	var old syscall.Rlimit
+	if e := syscall.Getrlimit(syscall.RLIMIT_NOFILE, &old); e != nil {
+		c.s.T.Fatalf("getrlimit: %v", e)
+	}
+	lim := old
+	lim.Cur = 0
+	if e := syscall.Setrlimit(syscall.RLIMIT_NOFILE, &lim); e != nil {
+		c.s.T.Fatalf("setrlimit: %v", e)
+	}
+	func() {
+		defer func() {
+			if e := syscall.Setrlimit(syscall.RLIMIT_NOFILE, &old); e != nil {
+				c.s.T.Fatalf("setrlimit back: %v", e)
+			}
+		}()
+		err = f()
+	}()
+	v, cur := snapshotB(c.Dst)
+	v.Label, v.ExpectErr, v.Kind, v.Fault = label, true, kind, "nofile"
+	if err != nil {
+		v.Err = err.Error()
+		if len(v.Err) > 200 {
+			v.Err = v.Err[:200]
+		}
+	} else {
+		c.Fail("save %q ran while no temporary file could be created (EMFILE) and reported success", label)
+	}
+	c.want, c.hasWant = nil, false
+	c.judge(&v, cur, false)
+	c.versions = append(c.versions, v)
+	c.Classes = append(c.Classes, "fail-open")
+	return err
+}
+
+// SaveInjected is one real save in a run where strace fails every fsync
+// (Session.Inject == "fsync") or every rename ("rename"): the save must report
+// the error and dst must be byte-identical to the previous version.
+func (c *Case) SaveInjected(label string, f func() error) (err error) {
+	kind := c.begin()
+	err = f()
+	v, cur := snapshotB(c.Dst)
+	v.Label, v.ExpectErr, v.Kind, v.Fault = label, true, kind, c.s.Inject
+	if err != nil {
+		v.Err = err.Error()
+		if len(v.Err) > 200 {
+			v.Err = v.Err[:200]
+		}
+	} else {
+		c.Fail("save %q reported success although every %s of the process fails", label, c.s.Inject)
+	}
+	c.want, c.hasWant = nil, false
+	c.judge(&v, cur, false)
+	c.versions = append(c.versions, v)
+	c.Classes = append(c.Classes, "fail-"+c.s.Inject)
 	return err
 }
 
@@ -509,6 +665,7 @@ func (s *Session) Case(name, dst string, keep []string, classes []string, body f
 		"seg": s.seg, "name": name, "dst": dst, "keep": keep, "classes": c.Classes,
 		"versions": c.versions, "initial": initial, "reader_polls": polls, "reader_distinct": nseen, "unordered": c.unordered,
 		"reader_bad": bad, "content_bad": c.contentBad, "info": c.Info, "tmpdir": os.Getenv("TMPDIR"),
+		"inject": s.Inject,
 	}
 	b, _ := json.Marshal(rec)
 	s.meta.Write(append(b, '\n'))
